@@ -9,8 +9,13 @@ format; `./check` diffs the two streams.
 -/
 open Fcgi
 
+inductive Cur
+  | none
+  | req (p : Req.Parser)
+  | str (p : Str.Parser)
+
 structure DState where
-  dummy : Unit := ()
+  cur : Cur := .none
 
 def natArg (s : String) : Option Nat := s.toNat?
 
@@ -214,9 +219,121 @@ def stepResp (args : List String) : Option String :=
     | (w', none) => some s!"err out={hexOrDash w'.out}"
   | _ => none
 
+def showPErr : Req.PErr → String
+  | .paniced => "paniced" | .stuckOnInput => "stuck" | .interrupted => "interrupted"
+  | .unknownVersion v => s!"version:{v.toNat}" | .invalidRequestLen n => s!"reqlen:{n}"
+  | .nullRequest => "nullreq" | .abortRequest => "abort" | .protocol => "protocol"
+
+def showEnv (env : List (Bytes × Bytes)) : String :=
+  if env.isEmpty then "-" else
+  let items := env.map (fun e => hexOrDash e.1 ++ ":" ++ hexOrDash e.2)
+  String.intercalate "," (items.mergeSort (fun a b => decide (a ≤ b)))
+
+def showReq (r : Req.Request) : String :=
+  s!"id={r.id} role={r.role} flags={r.flags.toNat} env={showEnv r.env}"
+
+def showIntoRequest (p : Req.Parser) : String :=
+  match p.intoRequest with
+  | .ok (r, left) => s!"ok {showReq r} left={hexOrDash left}"
+  | .error e => s!"err {showPErr e}"
+
+def showOptStream : Option Nat → String
+  | none => "none" | some n => toString n
+
+def showStrState (p : Str.Parser) : String :=
+  s!"buf={hexOrDash p.parsed} outbuf={hexOrDash p.output} free={p.free} boundary={p.isRecordBoundary} active={showOptStream p.stream}"
+
+def stepParser (st : DState) (args : List String) : Option (DState × String) :=
+  match args with
+  | ["req.new", b, mc] => do
+    let p := Req.Parser.new (← natArg b) (← natArg mc)
+    some ({ st with cur := .req p }, s!"free={p.free}")
+  | ["req.feed", h] => do
+    let bs ← bytesOfHex h
+    match st.cur with
+    | .req p =>
+      match p.parse bs with
+      | (p', some y) => some ({ st with cur := .req p' }, s!"done={y.done} out={hexOrDash y.output} free={p'.free}")
+      | (p', none) => some ({ st with cur := .req p' }, "panic")
+    | _ => some (st, "no-parser")
+  | ["req.peek"] =>
+    match st.cur with
+    | .req p => some (st, showIntoRequest p)
+    | _ => some (st, "no-parser")
+  | ["req.into_request"] =>
+    match st.cur with
+    | .req p => some ({ st with cur := .none }, showIntoRequest p)
+    | _ => some (st, "no-parser")
+  | ["req.into_stream"] =>
+    match st.cur with
+    | .req p =>
+      match p.intoStreamParser with
+      | .ok sp => some ({ st with cur := .str sp }, s!"ok {showReq sp.request} {showStrState sp}")
+      | .error e => some ({ st with cur := .none }, s!"err {showPErr e}")
+    | _ => some (st, "no-parser")
+  | ["str.parse", h, d] => do
+    let bs ← bytesOfHex h
+    let dest ← parseOptNat d
+    match st.cur with
+    | .str p =>
+      match p.parse bs dest with
+      | (p', .ok r) => some ({ st with cur := .str p' },
+          s!"ok stream={r.stream} end={r.streamEnd} out={r.output} data={hexOrDash r.delivered} {showStrState p'}")
+      | (p', .err e) => some ({ st with cur := .str p' }, s!"err {showPErr e} {showStrState p'}")
+      | (p', .panic _) => some ({ st with cur := .str p' }, "panic")
+    | _ => some (st, "no-parser")
+  | ["str.consume", k] => do
+    match st.cur with
+    | .str p => let p' := p.consumeStream (← natArg k); some ({ st with cur := .str p' }, showStrState p')
+    | _ => some (st, "no-parser")
+  | ["str.compress"] =>
+    match st.cur with
+    | .str p => let p' := p.compress; some ({ st with cur := .str p' }, showStrState p')
+    | _ => some (st, "no-parser")
+  | ["str.consume_output", k] => do
+    match st.cur with
+    | .str p => let p' := p.consumeOutput (← natArg k); some ({ st with cur := .str p' }, showStrState p')
+    | _ => some (st, "no-parser")
+  | ["str.set_stream", s] => do
+    let sv ← parseOptNat s
+    match st.cur with
+    | .str p =>
+      match p.setStream sv with
+      | .ok p' => some ({ st with cur := .str p' }, s!"ok {showStrState p'}")
+      | .rejected => some (st, s!"rejected {showStrState p}")
+      | .panic _ => some (st, s!"panic {showStrState p}")
+    | _ => some (st, "no-parser")
+  | ["str.peek_input"] =>
+    match st.cur with
+    | .str p =>
+      match p.intoInput with
+      | .ok bs => some (st, s!"ok {hexOrDash bs}")
+      | .error e => some (st, s!"err {showPErr e}")
+    | _ => some (st, "no-parser")
+  | ["str.into_input"] =>
+    match st.cur with
+    | .str p =>
+      match p.intoInput with
+      | .ok bs => some ({ st with cur := .none }, s!"ok {hexOrDash bs}")
+      | .error e => some ({ st with cur := .none }, s!"err {showPErr e}")
+    | _ => some (st, "no-parser")
+  | ["str.into_req"] =>
+    match st.cur with
+    | .str p =>
+      match p.intoRequestParser with
+      | some (.ok rp) => some ({ st with cur := .req rp }, s!"ok free={rp.free}")
+      | some (.error e) => some ({ st with cur := .none }, s!"err {showPErr e}")
+      | none => some ({ st with cur := .none }, "panic")
+    | _ => some (st, "no-parser")
+  | _ => none
+
 def step (st : DState) (line : String) : DState × String :=
+  if line.startsWith "# case" then ({ cur := .none }, line) else
   if line.startsWith "#" then (st, line) else
   let args := (line.splitOn " ").filter (· ≠ "")
+  match stepParser st args with
+  | some r => r
+  | none =>
   match stepVarInt args with
   | some o => (st, o)
   | none =>
